@@ -200,3 +200,8 @@ def run(ck):
             ck.verdict(interest.endswith("Interest::READ") and mode == {("sys::Mode", "Level")}, "5", "T6-provenance", mk, "eventfd-registered:READ+Level", "the eventfd is registered for READ, level-triggered (an undrained counter keeps being reported)", "the ping eventfd is registered with %s / %s instead of READ / Level: a wake-up whose event is dropped (e.g. by an error exit of the batch) is never reported again" % (interest, sorted(mode)), site=mk.where(c.bb))
         fl_ = T.calls(mk, name="eventfd")
         ck.verdict(bool(fl_), "5", "T6-provenance", mk, "creates-eventfd", "make_ping creates an eventfd", "make_ping does not create an eventfd", site=mk.where(), nontrivial=False)
+    # the ping source keeps its registration state (Generic's token/poller) in step with the poller:
+    # it is recorded only by a successful registration and never dropped by a failed one (shared with C15.4)
+    from props import C15, common
+
+    common.import_results(ck, C15, "4", "Generic", "5")
